@@ -33,7 +33,6 @@ import io
 import itertools
 import json
 import os
-import random
 import re
 import time
 
@@ -52,8 +51,6 @@ LEGS = set(os.environ.get("VERIF_C16_LEGS", "match,doc,cache,trace").split(","))
 JOPTS = ["-XX:ParallelGCThreads=2"]      # 16 GC threads cost more than they give on these small heaps
 
 STAR, QM, BS, LF = 42, 63, 92, 10
-LITERALS = (97, 98, 47, 46)              # model symbols that are plain literals: a b / .
-
 # concrete literal characters: regex metacharacters, punctuation, non-ASCII, case pairs, non-BMP
 LIT_POOL = list(".+()[]{}$^|-#&~<>=,:;!@%\"'`_/") + list("aZ09bB") + \
     ["\u00e9", "\u00c9", "\u00df", "\u1e9e", "\u017f", "s", "S", "k", "K", "\u212a", "\u4e2d", "\U0001d4b3",
@@ -571,10 +568,6 @@ def validate(ctx, traces, with_controls=True):
 
 
 # ------------------------------------------------------------------ the check
-
-def show(m, cps_):
-    return cstr(m, cps_)
-
 
 def run(ctx):
     quick = ctx.tier == "quick"
